@@ -76,6 +76,7 @@ type world struct {
 	vest    *itutiltypes.TestAccount
 	proxyS  common.Address
 	proxyL  common.Address
+	hosts   []common.Address // call-tree interpreter contracts (hx.BuildTreeInterp): frames of multi-call transactions
 	module  common.Address // cpc module account
 	gov     common.Address // a blocked module account
 	fresh   common.Address // never has an account
@@ -152,6 +153,13 @@ func newWorld(t *testing.T, r *Rng) *world {
 		c.Fund(sdk.AccAddress(a.Bytes()), native, new(big.Int).Add(big.NewInt(1_000_000), r.BigBits(40)))
 		c.Fund(sdk.AccAddress(a.Bytes()), "utwo", new(big.Int).Add(big.NewInt(5), r.BigBits(70)))
 	}
+	// call-tree interpreter at two addresses (the same bytecode; the program is the calldata)
+	w.hosts = []common.Address{common.HexToAddress("0x1000000000000000000000000000000000000e01"), common.HexToAddress("0x1000000000000000000000000000000000000e02")}
+	for _, a := range w.hosts {
+		c.Fund(sdk.AccAddress(a.Bytes()), native, new(big.Int).Add(big.NewInt(500_000), r.BigBits(30)))
+		c.Fund(sdk.AccAddress(a.Bytes()), "utwo", new(big.Int).Add(big.NewInt(9), r.BigBits(50)))
+		c.SetCode(a, BuildTreeInterp())
+	}
 	fundAny(t, c, sdk.AccAddress(w.gov.Bytes()), "utwo", big.NewInt(7))
 	c.Fund(w.eoa[2].GetCosmosAddress(), "uthree", big.NewInt(3))
 
@@ -170,8 +178,8 @@ func newWorld(t *testing.T, r *Rng) *world {
 	}
 
 	w.uni = []common.Address{w.eoa[0].GetEthAddress(), w.eoa[1].GetEthAddress(), w.eoa[2].GetEthAddress(), w.vest.GetEthAddress(),
-		w.proxyS, w.proxyL, {}, w.module, w.gov, w.tok[0].addr, w.tok[1].addr, w.fresh}
-	w.uniName = []string{"eoa1", "eoa2", "eoa3", "vesting", "proxyStrict", "proxyLenient", "zero", "cpcModule", "govModule", "tokenA", "tokenB", "fresh"}
+		w.proxyS, w.proxyL, {}, w.module, w.gov, w.tok[0].addr, w.tok[1].addr, w.fresh, w.hosts[0], w.hosts[1]}
+	w.uniName = []string{"eoa1", "eoa2", "eoa3", "vesting", "proxyStrict", "proxyLenient", "zero", "cpcModule", "govModule", "tokenA", "tokenB", "fresh", "host1", "host2"}
 	for _, a := range w.uni {
 		if c.App.BankKeeper.BlockedAddr(sdk.AccAddress(a.Bytes())) {
 			w.blocked = append(w.blocked, a)
